@@ -18,9 +18,15 @@ FCHK_CONV = {
     (3, "c"): ["xxx", "yyy", "zzz", "xyy", "xxy", "xxz", "xzz", "yzz", "yyz", "xyz"],
     (2, "p"): ["c0", "c1", "s1", "c2", "s2"], (3, "p"): ["c0", "c1", "s1", "c2", "s2", "c3", "s3"], (4, "p"): ["c0", "c1", "s1", "c2", "s2", "c3", "s3", "c4", "s4"],
 }
+# Cartesian g and higher in .fch files: x power ascending, then y power ascending (ZZZZ YZZZ YYZZ YYYZ YYYY XZZZ ... XXXX)
+for _l in range(4, 8):
+    FCHK_CONV[(_l, "c")] = ["x" * _a + "y" * _b + "z" * (_l - _a - _b) for _a in range(_l + 1) for _b in range(_l - _a + 1)]
+    FCHK_CONV[(_l, "p")] = ["c0"] + [x for _m in range(1, _l + 1) for x in (f"c{_m}", f"s{_m}")]
 # AIMAll / AIMPAC primitive type table (1-based codes)
 WFN_TYPES = ["1", "x", "y", "z", "xx", "yy", "zz", "xy", "xz", "yz", "xxx", "yyy", "zzz", "xxy", "xxz", "yyz", "xyy", "xzz", "yzz", "xyz",
              "xxxx", "yyyy", "zzzz", "xxxy", "xxxz", "xyyy", "yyyz", "xzzz", "yzzz", "xxyy", "xxzz", "yyzz", "xxyz", "xyyz", "xyzz"]
+# types 36-56 (h): ZZZZZ YZZZZ YYZZZ YYYZZ YYYYZ YYYYY XZZZZ XYZZZ XYYZZ XYYYZ XYYYY XXZZZ XXYZZ XXYYZ XXYYY XXXZZ XXXYZ XXXYY XXXXZ XXXXY XXXXX
+WFN_TYPES += ["x" * _a + "y" * _b + "z" * (5 - _a - _b) for _a in range(6) for _b in range(6 - _a)]
 
 
 def _ia(label, vals):
